@@ -52,7 +52,9 @@ func (d *Document) Include(res Resource) {
 	} else if col, ok := d.Data.(Collection); ok {
 		// Check Collection
 		ctyp := col.GetType()
-		if ctyp.Name == res.GetType().Name {
+		// A collection without a type (like Resources, which Range returns)
+		// can contain resources of any type.
+		if ctyp.Name == "" || ctyp.Name == res.GetType().Name {
 			for i := 0; i < col.Len(); i++ {
 				rkey := col.At(i).Get("id").(string) + " " + col.At(i).GetType().Name
 
